@@ -414,6 +414,7 @@ pub fn run(run: &mut Run) {
             run.violation(k, w, json!({"check":"C08","long":true,"dev":long[i].1,"rows":c.rows,"cases":c.cases,"errors":c.errors}));
         }
     }
+    crate::bigpop::run_family(run, crate::bigpop::BigMode::Lexi);
     run.note("long.scenarios", json!(long.len()));
     run.note("long.streams", json!(long_streams));
     run.bound("law.max_cases_structured", json!(law_c_max));
@@ -438,6 +439,9 @@ pub fn replay(v: &Value) -> bool {
         .map(|a| a.iter().map(|r| r.as_array().map(|x| x.iter().filter_map(|y| y.as_i64()).collect()).unwrap_or_default()).collect())
         .unwrap_or_default();
     let c = Case { rows, cases: v["cases"].as_u64().unwrap_or(0) as usize, errors: v["errors"].as_bool().unwrap_or(false) };
+    if v["big"] == json!(true) {
+        return crate::bigpop::replay(crate::bigpop::BigMode::Lexi, v);
+    }
     if v["long"] == json!(true) {
         let (leaves, _, viol) = long_case(&c, v["dev"].as_u64().unwrap_or(1) as usize);
         println!("{} individuals x {} cases; survivors of some ordering: {:?}; {leaves} streams explored", c.rows.len(), c.cases, support(&c));
